@@ -1,4 +1,4 @@
-\* AS CODED, expected counterexample (LibOnMain): tree T4s, no restart, 4 honest producers: a proposal left over from the abandoned branch becomes the LIB
+\* BEFORE REPAIR a4f2be36 (Fixes = {}), counterexample to LibOnMain: tree T4s, no restart, 4 honest producers: a proposal left over from the abandoned branch became the LIB
 SPECIFICATION Spec
 CONSTANTS
   N = 4
